@@ -171,6 +171,15 @@ fn main() {
                 }
             }
         }
+        "fmt" => {
+            // reference rendering for an explicit configuration: stdin -> stdout, in-process
+            use std::io::{Read, Write};
+            let c: cfg::Cfg = serde_json::from_str(&args[2]).expect("cfg json");
+            let mut input = String::new();
+            std::io::stdin().read_to_string(&mut input).expect("utf-8 stdin");
+            let out = c.formatter().format(&input, pasfmt_core::prelude::FileOptions::new());
+            std::io::stdout().write_all(out.as_bytes()).unwrap();
+        }
         "lex" => {
             let text = std::fs::read_to_string(&args[2]).expect("read");
             for t in refscan::scan(&text) {
